@@ -6,7 +6,12 @@
    ->  k0r<0|1>s<0|1> none
      | k0r..s.. some <removed> <cfg> <mand> [d,..] "units" "type"|- min:max|- <hmin> <hmax>
    r: a step the library refuses (delete of a leaf-list default), s: a step outside the claim (delete of
-   units/type) -- along the reference run.  (k is always 0: no known finding is classified here any more.) *)
+   units/type) -- along the reference run.  (k is always 0: no known finding is classified here any more.)
+   c08specr <n> <typename>* <rest as c08spec>
+     the same reference with its parameter [resolvable] (Spec/C08.v, Section Spec: "the type names that resolve")
+     instantiated by the given set of names instead of Schema.is_builtin: for the generated replacement types
+     that are whole type statements (restrictions, unions, typedef references), where the generator knows by
+     construction whether the statement resolves; the names are labels of those statements. *)
 open BinNums
 open Datatypes
 open Drv
@@ -18,10 +23,11 @@ let kind_of_name = function
   | "Choice" -> KChoice | "Input" -> KInput | "Notification" -> KNotification | "Output" -> KOutput
   | x -> raise (Cmd_schema.Bad ("kind " ^ x))
 
-let do_spec ts =
+let do_spec_with (labelled : bool) ts =
   Cmd_schema.toks := ts;
   let open Cmd_schema in
   try
+    let resolvable = if labelled then (let names = p_list p_str in fun t -> L.mem t names) else is_builtin in
     let b () = next () = "1" in
     let ign = b () in let removable = b () in let hmin = b () in let hmax = b () in
     let kind = kind_of_name (next ()) in
@@ -43,7 +49,7 @@ let do_spec ts =
       | dv :: rest ->
         if refused st dv then r := true;
         if not (in_scope dv) then s := true;
-        (match spec_deviate is_builtin ign removable st dv with
+        (match spec_deviate resolvable ign removable st dv with
          | Some st' -> go st' rest
          | None -> None) in
     let res = go (init_state e) dvs in
@@ -63,4 +69,5 @@ let do_spec ts =
          (if min_written n then "1" else "0"); (if max_written n then "1" else "0") ])
   with Cmd_schema.Bad m -> "bad-case:" ^ m
 
-let () = register "c08spec" do_spec
+let () = register "c08spec" (do_spec_with false)
+let () = register "c08specr" (do_spec_with true)
